@@ -36,11 +36,15 @@ def run : Runner
   | "bsub", [_, v, m], impl => do
     let v ← bytes? v; let m ← bytes? m
     let sep := (Bech32.lastIndexOf 49 v).getD 0
-    let applicable := (Bech32.Decode v).toBool && v.length = m.length &&
-      (let h := hamming v m; 1 ≤ h ∧ h ≤ 4) && v.take (sep+1) == m.take (sep+1) &&
-      !(m.drop (sep+1)).contains 49
+    let inScope := (Bech32.Decode v).toBool && v.length = m.length &&
+      (let h := hamming v m; 1 ≤ h ∧ h ≤ 4) && v.take (sep+1) == m.take (sep+1)
+    let movesSep := (m.drop (sep+1)).contains 49
+    let applicable := inScope && !movesSep
     pure { model := bdecTok m,
-           prop := if !applicable then "-" else if impl.startsWith "err" then "ok"
+           prop := if inScope && movesSep then
+                     -- the property text does not exclude '1' as a replacement character; the theorem has to (C03_bech32, h1')
+                     (if impl.startsWith "err" then "ok" else "violated:accepted ≤4 substitutions one of which moves the separator")
+                   else if !applicable then "-" else if impl.startsWith "err" then "ok"
                    else if m == v.map Bech32.toUpper || m == v.map Bech32.toLower then
                      "violated:accepted a case variant of an accepted string (hrp without letters)"
                    else "violated:accepted ≤4 substitutions" }
